@@ -113,6 +113,7 @@ def advance(ctx, prog):
 def run(ctx):
     prog = ctx.progs["rumqttd"]
     ctx.guarded("R-C01-waiters", waiters, ctx, prog)
+    ctx.guarded("R-C01-takeover", takeover_keeps_subscriptions, ctx, prog)
     ctx.guarded("R-C01-advance", advance, ctx, prog)
     ctx.guarded("R-C01-advance", parked_only_when_done, ctx, prog)
     ctx.guarded("R-C01-wake", wake, ctx, prog)
@@ -956,3 +957,15 @@ def cache(ctx, prog):
         ctx.ok(rule, m.id, "routes through protocol::matches")
     else:
         ctx.violation(rule, m.id, "matcher", "DataLog::matches no longer uses protocol::matches", site=m.fn_loc())
+
+
+def takeover_keeps_subscriptions(ctx, prog):
+    """A persistent subscriber that reconnects while its previous connection is still registered (takeover) keeps its
+    subscriptions only if the stored session is looked up AFTER the takeover saved it and is not consumed by a refused
+    CONNECT: otherwise the new connection starts with no subscriptions and matching messages are never delivered to
+    it. The ordering obligations are R-C08-restore's; their verdicts are re-filed here (recomputed on every run)."""
+    from . import c08
+    from .common import Relabel
+    view = Relabel(ctx, "R-C01-takeover", lambda fn, inst: True)
+    c08.restore(view, prog)
+    ctx.floor("R-C01-takeover", "verdicts about session lookup at admission", view.kept, 2)
